@@ -44,6 +44,13 @@ for sw in (False, True):
 # a rotation payload whose inner bundle carries a foreign id, presented twice: the second use is a replay
 beh("f10_replay_inner_id", ["C10"], [A("k1", "e1", "n1", "s1"), ROT("k1", "k1", "cur", "k2", "e2", "n2", iid=True), ROT("k1", "k1", "cur", "k2", "e2", "n2", iid=True), ROT("k1", "k1", "cur", "k2", "e2", "n2"),
                                       ROT("k2", "k2", "cur", "k3", "e1", "n1", iid=True), ROT("k2", "k2", "cur", "k3", "e1", "n1", iid=True)])
+# two handles on one directory; a listing made through one handle before the other handle writes
+beh("f01_two_handles", ["C01", "C06", "C10"], [F("k1", "e1", "n1"), F("k2", "e1", "n1"), A("k1", "e1", "n1"), F("k1", "e1", "n1"), T("t1"), F("k1", "e2", "t1"), F("k2", "e1", "t1"), R("k1"), F("k1", "e1", "n1"),
+                                                 F("k2", "e1", "n1"), A("k3", "e1", "n1", "s1"), ROT("k3", "k3", "cur", "k1", "e2", "n2"), ROT("k3", "k3", "cur", "k1", "e2", "n2"), ROT("k3", "k3", "cur", "k1", "e2", "n2")], be="file2")
+beh("f01_file_remove", ["C01"], [A("k1", "e1", "n1"), F("k1", "e1", "n1"), R("k1"), F("k1", "e1", "n1"), F("k1", "e1", "n1"), A("k1", "e1", "n1"), F("k1", "e1", "n1")], be="file")
+for regw in ("none", "W1"):
+    beh("f01_storage_wrapper_as_regw_" + regw, ["C01"], [W(regw), F("k1", "e1", "n1", ww="SW", wk="k1", wn="n1"), F("k2", "e2", "n2", ww="SW", wk="k2", wn="n2"), A("k1", "e1", "n1"), F("k1", "e1", "n1", ww="SW", wk="k1", wn="n1")], sw=True)
+beh("f06_skip_storage", ["C06", "C01"], [T("t1", "s1"), dict(F("k1", "e1", "t1"), skipst=True), F("k2", "e1", "t1"), F("k1", "e1", "t1"), T("t2"), dict(F("k3", "e2", "t2"), skipst=True), dict(F("k2", "e2", "t2"), skipst=True)])
 def FR(t, ka, kb, e="e1", be="inmem"): return dict(op="FetchRace", t=t, ka=ka, kb=kb, e=e, be=be)
 # overlapping fetches presenting the same token: known finding KF-C06-1 on the in-memory back end; the file back end refuses the loser
 beh("kf_c06_race", ["C06", "C01"], [T("t1", "s1"), FR("t1", "k1", "k2"), F("k3", "e1", "t1"), T("t2"), FR("t2", "k3", "k1"), FR("t2", "k3", "k2")])
